@@ -921,6 +921,20 @@ def fam_reject_gap(rng, n, prefix):
                 c.o("wv", fb(t0 + g2 + 0.04), hx(video_delta(rng, codec)), 0)
         c.o("fin", 0)
         out.append(c)
+    # explicit decode times: the 32-bit gap guard is about DECODE times, whatever the presentation times are
+    for j in range(max(4, n // 4)):
+        cfg = rand_cfg(rng, audio="none-cfg", dims=(640, 480), meta=0)
+        codec = cfg["codec"]
+        c = Case("%sd%d" % (prefix, j), "mux")
+        emit_cfg(c, cfg, rng)
+        d0 = rng.choice([3000, 9000, 90000])
+        gap = 2**32 + rng.choice([-3000, -1, 0, 1, 1000, 2999, 3000, 3001, 6000])
+        off = rng.choice([-3000, -3000, -1, 0, 3000, 6000])
+        c.o("wvd", fb(d0 / 90000.0), fb(d0 / 90000.0), hx(video_key(rng, codec)), 1)
+        c.o("wvd", fb((d0 + gap + off) / 90000.0), fb((d0 + gap) / 90000.0), hx(video_delta(rng, codec)), 0)
+        c.o("wvd", fb((d0 + gap + 3000 + max(off, 0)) / 90000.0), fb((d0 + gap + 3000) / 90000.0), hx(video_delta(rng, codec)), 0)
+        c.o("fin", 0)
+        out.append(c)
     return out
 
 
@@ -942,7 +956,13 @@ def fam_encode_paths(rng, n, prefix):
             ms = "%x" % rng.choice([33, 33, 40, 1, 0, 1000, 17])
             if r < 5:
                 key = (not started) if rng.chance(5, 6) else started
-                c.o("ev", hx(video_key(rng, codec) if key else video_delta(rng, codec)), ms)
+                data = video_key(rng, codec) if key else video_delta(rng, codec)
+                if codec in ("h264", "h265") and rng.chance(1, 4):
+                    # an access-unit delimiter and an EMPTY unit (two start codes in a row) in front of the frame:
+                    # key-frame detection must look past empty units
+                    aud = b"\x00\x00\x01\x09\xf0" if codec == "h264" else b"\x00\x00\x01\x46\x01\x50"
+                    data = aud + rng.choice([b"\x00\x00\x01", b"\x00\x00\x00\x01"]) + data
+                c.o("ev", hx(data), ms)
                 started = started or key
             elif r < 6:
                 c.o("ev", "-", ms)
